@@ -7,6 +7,7 @@
 set -u
 NAME="$1"; PATCH="$2"; DEMO="$3"; PROP="$4"; TIER="${5:-quick}"
 export GOFLAGS=-mod=mod GOPROXY=off GOSUMDB=off GOTOOLCHAIN=local
+export DBUS_SESSION_BUS_ADDRESS=unix:path=/nonexistent DISABLE_KWALLET=1
 W=/tmp/mut/$NAME
 rm -rf "$W"; git -C /repo worktree prune
 mkdir -p /tmp/mut
